@@ -159,6 +159,15 @@ impl RelationToQueryTranslator for MsSqlTranslator {
     ) -> ast::Query {
         // A TOP can not be used
         // in the same query or sub-query as a OFFSET.
+        // With an OFFSET the limit is written OFFSET m ROWS FETCH FIRST n ROWS ONLY.
+        let fetch = match (&limit, &offset) {
+            (Some(quantity), Some(_)) => Some(ast::Fetch {
+                with_ties: false,
+                percent: false,
+                quantity: Some(quantity.clone()),
+            }),
+            _ => None,
+        };
         let top = limit.filter(|_| offset.is_none()).map(|e| ast::Top {
             with_ties: false,
             percent: false,
@@ -214,7 +223,7 @@ impl RelationToQueryTranslator for MsSqlTranslator {
             order_by,
             limit: None,
             offset: new_offset,
-            fetch: None,
+            fetch,
             locks: vec![],
             limit_by: vec![],
             for_clause: None,
